@@ -41,6 +41,8 @@ import numpy as np
 
 from .. import data, groups, objects
 from ..data import CommentsData, Data, DataType
+from ..data.color_map import ColorMap
+from ..data.reference_value_map import ReferenceValueMap
 from ..data.text_data import TextData
 from ..data.visual_parameters import VisualParameters
 from ..groups import (
@@ -278,6 +280,16 @@ class Workspace(AbstractContextManager):
             entity.entity_type,
             omit_list=["_workspace", "_on_file"] + list(omit_list),
         )
+
+        # the type of the copy gets its own colour map and value map
+        if isinstance(entity_type_kwargs.get("color_map"), ColorMap):
+            color_map = entity_type_kwargs["color_map"]
+            entity_type_kwargs["color_map"] = {
+                "values": deepcopy(color_map._values),  # pylint: disable=protected-access
+                "name": color_map.name,
+            }
+        if isinstance(entity_type_kwargs.get("value_map"), ReferenceValueMap):
+            entity_type_kwargs["value_map"] = dict(entity_type_kwargs["value_map"].map)
 
         # overwrite kwargs
         entity_kwargs.update(
